@@ -60,8 +60,11 @@ class C07(Spec):
                   "awaited release, destruction, move construction into a temporary, move-assignment of an empty or of another mutex' ownership): an armed object belongs to the unique "
                   "owner, an ownership is never stored into an armed object, a mutex whose every ownership is gone is free or being handed over. The model (including which OS thread runs which coroutine) is tied to mutex.h by replaying generated, "
                   "exhaustively enumerated (2 contenders) and preemption-bounded (3 contenders) schedules on the unmodified header and diffing every operation line.")
-    level_note = ("trusted: Lean kernel; hand-written list-level model (intrusive links abstracted to lists; pointer safety by ASan in the harness); baton shim (SC interleavings; memory "
-                  "orders are C03's); the defect of the pinned commit (subscribe re-read the published awaiter) is repaired by a fix: commit and kept as a corpus schedule.")
+    level_note = ("trusted: Lean kernel; hand-written list-level model; the intrusive links are modelled by the pointer-level model MutexPtr.lean, proved to refine it (C08: "
+                  "c08_ptr_refines_list) and compared with the real links by the suite ptr-level of C08; node safety is proved there (c07_no_dead_access_ptr, c07_no_touch_after_publish_ptr, "
+                  "c07_unlock_unlinks_before_resume_ptr, c07_no_conflict_ptr; ghost liveness of awaiters, the real lifetimes are checked by ASan in the harness); baton shim (SC interleavings; "
+                  "memory orders are C03's); the defect of the pinned commit (subscribe re-read the published awaiter) is repaired by a fix: commit, kept as a corpus schedule and as the as-is "
+                  "step variant with the decide witness c07_asis_touch_after_resume_ptr.")
     trusted_base = ["model lean/CoclsModel/Mutex.lean tied to mutex.h by step-for-step replay (harness/h_mutex.cpp, shim/verif_shim.h) against lean/Drivers/C07.lean",
                     "C++20 coroutine machinery and libstdc++ as specified"]
     assumptions = ["interleavings are sequentially consistent (memory orders: C03)",
